@@ -407,6 +407,18 @@ func genLayout(r *core.RNG, odd, split, dirs bool) json.RawMessage {
 	return layoutInput(files...)
 }
 
+// genConcLayout: a layout of 2-4 files whose first Doc/Comment questions are ALSO put by several goroutines at once
+// on freshly loaded copies of the package (conc.go).  More files and declarations than the plain stream: the longer
+// whatever Doc/Comment need takes to build, the wider the window a lazily built index leaves open.
+func genConcLayout(r *core.RNG, dirs bool, copies int) json.RawMessage {
+	g := &lgen{r: r, dirs: dirs}
+	files := []File{g.file(true), g.file(false)}
+	for len(files) < 4 && r.Chance(60) {
+		files = append(files, g.file(false))
+	}
+	return concLayoutInput(&ConcSpec{G: 8 + 4*r.Intn(3), Copies: copies}, files...)
+}
+
 // ---------------------------------------------------------------------------------------------
 // fixed corner cases
 // ---------------------------------------------------------------------------------------------
@@ -523,6 +535,7 @@ func fixedTags() []json.RawMessage {
 // ---------------------------------------------------------------------------------------------
 
 func (prop) Generate(r *core.RNG, tier string) []json.RawMessage {
+	generated = true
 	nTags, nLayouts := 1200, 130
 	if tier == "thorough" {
 		nTags, nLayouts = 15000, 2500
@@ -537,6 +550,11 @@ func (prop) Generate(r *core.RNG, tier string) []json.RawMessage {
 		if i%per == 0 && li < nLayouts {
 			// every 3rd layout has //line directives (also combined with the odd stream)
 			out = append(out, genLayout(r.Fork(), li%8 == 7, li%32 == 15, li%3 == 1))
+			// the concurrency pass: first questions on fresh packages from 8-16 goroutines at once (26 cases per
+			// quick run, 250 per thorough run: a child process and a load of 25 packages each)
+			if (tier != "thorough" && li%5 == 2) || li%10 == 2 {
+				out = append(out, genConcLayout(r.Fork(), li%3 == 1, 24))
+			}
 			li++
 		}
 		if i%10 == 9 {
@@ -700,11 +718,58 @@ func (prop) Shrink(in json.RawMessage) []json.RawMessage {
 		_ = json.Unmarshal(in, &c)
 		return c.Files
 	}
-	emit := func(fs []File) { out = append(out, layoutInput(fs...)) }
+	emit := func(fs []File) { out = append(out, concLayoutInput(inp.Conc, fs...)) } // a concurrency case stays one
+	if inp.Conc != nil {
+		// a concurrency case fails by a race: the fewer declarations, the shorter the window and the less reliable
+		// the replay.  Only whole files and declarations are dropped, and not below six declarations.
+		nd := 0
+		for _, f := range inp.Files {
+			nd += len(f.Decls)
+		}
+		if nd <= 6 {
+			return nil
+		}
+		for i := range inp.Files {
+			if len(inp.Files) > 1 && nd-len(inp.Files[i].Decls) >= 6 {
+				fs := clone()
+				emit(append(fs[:i], fs[i+1:]...))
+			}
+		}
+		for fi := range inp.Files {
+			if n := len(inp.Files[fi].Decls); n > 3 && nd-n/2 >= 6 {
+				fs := clone()
+				fs[fi].Decls = fs[fi].Decls[:n-n/2]
+				emit(fs)
+				fs = clone()
+				fs[fi].Decls = fs[fi].Decls[n/2:]
+				emit(fs)
+			}
+		}
+		for fi := range inp.Files {
+			for di := range inp.Files[fi].Decls {
+				if len(inp.Files[fi].Decls) > 1 {
+					fs := clone()
+					fs[fi].Decls = append(fs[fi].Decls[:di], fs[fi].Decls[di+1:]...)
+					emit(fs)
+				}
+			}
+		}
+		return out
+	}
 	if len(inp.Files) > 1 {
 		for i := range inp.Files {
 			fs := clone()
 			emit(append(fs[:i], fs[i+1:]...))
+		}
+	}
+	for fi := range inp.Files { // big cuts first: one half of the declarations of a file
+		if n := len(inp.Files[fi].Decls); n > 3 {
+			fs := clone()
+			fs[fi].Decls = fs[fi].Decls[:n/2]
+			emit(fs)
+			fs = clone()
+			fs[fi].Decls = fs[fi].Decls[n/2:]
+			emit(fs)
 		}
 	}
 	for fi := range inp.Files {
